@@ -116,6 +116,9 @@ Definition client0 : client :=
 Definition set_alive (c : client) (x : bool) :=
   mkC x (cep c) (cst c) (txn_parts c) (pend_parts c) (grp c) (pend_offs c) (queue c) (inflight c) (deadb c)
       (slot c) (kcur c) (accepted c) (lostb c) (capp c) (csent c) (cowned c) (ctoc c).
+Definition set_cep (c : client) (x : nat) :=
+  mkC (alive c) x (cst c) (txn_parts c) (pend_parts c) (grp c) (pend_offs c) (queue c) (inflight c) (deadb c)
+      (slot c) (kcur c) (accepted c) (lostb c) (capp c) (csent c) (cowned c) (ctoc c).
 Definition set_cst (c : client) (x : tst) :=
   mkC (alive c) (cep c) x (txn_parts c) (pend_parts c) (grp c) (pend_offs c) (queue c) (inflight c) (deadb c)
       (slot c) (kcur c) (accepted c) (lostb c) (capp c) (csent c) (cowned c) (ctoc c).
@@ -341,8 +344,7 @@ Definition step (s : gstate) (e : event) : option gstate :=
           match cst c, trans UNINIT READY with
           | UNINIT, Some t =>
               if memn ep (eissued en) then
-                Some (mkG (set_nth i (mkC true ep t [] [] false [] [] [] [] None 0 [] false [] false false [])
-                                   (clients s))
+                Some (mkG (set_nth i (set_cep (set_cst c t) ep) (clients s))
                           (mkE (est en) (eep en) (einit en) (remn ep (eissued en)) (eparts en) (glog en)
                                (eowner en) (edone en))
                           (ended s))
@@ -353,7 +355,12 @@ Definition step (s : gstate) (e : event) : option gstate :=
       end
   | ABegin i =>
       with_client s i (fun c =>
-        match trans (cst c) IN_TXN with Some t => Some (new_txn c t) | None => None end)
+        (* begin_transaction runs in the application after the previous commit/abort returned: the
+           transactional task that completed it has ended *)
+        match slot c, trans (cst c) IN_TXN with
+        | None, Some t => Some (new_txn c t)
+        | _, _ => None
+        end)
   | AAccept i x p b newb =>
       with_client s i (fun c =>
         match cst c with
@@ -412,10 +419,12 @@ Definition step (s : gstate) (e : event) : option gstate :=
   | AError i =>
       with_client s i (fun c =>
         (* only the AddPartitionsToTxn / AddOffsetsToTxn / TxnOffsetCommit handlers call it *)
-        match slot c with
-        | Some (KParts, _) | Some (KOffs, _) | Some (KToc, _) =>
+        match slot c, cst c with
+        | Some (KParts, _), IN_TXN | Some (KOffs, _), IN_TXN | Some (KToc, _), IN_TXN
+        | Some (KParts, _), COMMITTING | Some (KOffs, _), COMMITTING | Some (KToc, _), COMMITTING
+        | Some (KParts, _), ABORTING | Some (KOffs, _), ABORTING | Some (KToc, _), ABORTING =>
             match trans (cst c) ABORTABLE with Some t => Some (c_clear c t) | None => None end
-        | _ => None
+        | _, _ => None
         end)
   | AFatal i =>
       with_client s i (fun c =>
